@@ -482,9 +482,9 @@ func pathD(v ssa.Value, d int) string {
 	}
 	switch x := v.(type) {
 	case *ssa.Parameter:
-		return "param:" + x.Name()
+		return "param:" + canonParam(x)
 	case *ssa.FreeVar:
-		return "free:" + x.Name()
+		return "free:" + canonFree(x)
 	case *ssa.Const:
 		if x.Value == nil {
 			return "nil"
@@ -531,7 +531,7 @@ func pathD(v ssa.Value, d int) string {
 		return pathD(x.Tuple, d) + fmt.Sprintf("#%d", x.Index)
 	case *ssa.Alloc:
 		if x.Comment != "" {
-			return "local:" + x.Comment
+			return "local:" + canonLocal(x)
 		}
 		return "alloc:" + x.Name()
 	case *ssa.Phi:
